@@ -188,6 +188,12 @@ func main() {
 		ex := interp.NewExplorer(prog, fn, cfg)
 		got, note := ex.ReplayConcrete(v.Inputs)
 		ok := got != nil && normLabel(got.Label) == normLabel(v.Label)
+		if got != nil && !ok && got.Kind == "panic" && v.Kind == "panic" {
+			// a symbolic-path run-time panic carries no operand values; the
+			// concrete one appends them ("... [0:2:1] with capacity 1")
+			a, b := normLabel(got.Label), normLabel(v.Label)
+			ok = strings.HasPrefix(a, b) || strings.HasPrefix(b, a)
+		}
 		res.ReplayOK = &ok
 		if got != nil {
 			res.ReplayNote = "reproduced: " + got.Kind + " " + got.Label
